@@ -416,3 +416,68 @@ def check_C16(ctx):
              'distinct = distinct calls; non-trivial = a value of at least two limbs',
         explanation='dispatch/table model + trace validation against combinatorial definitions and a deterministic primality oracle',
         extra_cov=dict(bin_limits=lim, bin_boundary_pairs_replayed=len(pairs)))
+
+
+# ------------------------------------------------------------------------------------------------ C17
+def check_C17(ctx):
+    import re
+    q = ctx.tier == 'quick'
+    r = assume_model(ctx, 'IOModel', {'VMAX': 700 if q else 4095, 'SMAX': 2 if q else 3, 'EMIT': 'TRUE'}, timeout=3000)
+    ctx.model_must_hold(r, what='(export/import layout, raw format, fault verdicts)')
+    beh = re.findall(r'<<"FAULT", "(\w+)", (-?\d+), (\d+), "(\w+)">>', r['out'])
+    for mm in ctx.models:
+        if mm['name'] == 'IOModel': mm['states'] = max(mm['states'], len(beh)); mm['transitions'] = mm['states']
+    b = ctx.build('default')
+    ff = os.path.join(ctx.scratch, 'faults.lst'); open(ff, 'w').write(''.join(f'{f} {v} {t}\n' for f, v, t, _ in beh))
+    paths = ctx.run_driver(b, 'c17_replay', shards=4, extra=f'file={ff}', timeout=900)
+    ctx.validate(paths)
+    trace_drivers(ctx, [('c17_export', 16, 1500), ('c17_stream', 16, 1500)], pure_drivers=['c17_export'])
+    ctx.notes.append(f'fault behaviours enumerated by TLC and replayed: {len(beh)}')
+    return ctx.finish('fault_enumeration',
+        rule='R2: IOModel = export/import round trip, count formula and zero nail bits for every v<=VMAX x size x order x endian x EVERY nail count; raw format round trip and rejection of every '
+             'proper prefix; every (writer, value, failing byte position) and (reader, value, truncation point) behaviour printed by TLC and replayed. R3/R1: export/import for size 1..16, both orders, '
+             'endian -1/0/+1, nails 0,1,7,8*size-1,random, every buffer misalignment 0..7, values of 0..40 limbs, garbage nail bits; out_raw/out_str/mpq_out_str/mpf_out_str/gmp_fprintf with a '
+             'failing write at every byte position of unbuffered fopencookie streams; inp_raw/inp_str/mpq_inp_str on every truncation of a valid stream and on arbitrary headers; MPIR.tla '
+             'requires the documented bytes, return 0 (or -1), a well-formed destination and an unchanged heap. distinct = distinct (function, value, fault position); non-trivial = fault '
+             'position strictly inside the stream or value of two limbs or more',
+        explanation='every fault position enumerated; formats checked against the documented layout')
+
+
+# ------------------------------------------------------------------------------------------------ C18
+def check_C18(ctx):
+    import re
+    q = ctx.tier == 'quick'
+    r = assume_model(ctx, 'PrintfModel', {'EMIT': 'TRUE'}, timeout=3000)
+    ctx.model_must_hold(r, what='(transcribed __gmp_doprnt_integer layout = C99 printf layout on the whole product)')
+    rows = re.findall(r'<<"FMT", "(.*)", (-?\d+), (-?\d+), "(.)", (-?\d+)>>', r['out'])
+    for mm in ctx.models:
+        if mm['name'] == 'PrintfModel': mm['states'] = max(mm['states'], len(rows)); mm['transitions'] = mm['states']
+    b = ctx.build('default')
+    ff = os.path.join(ctx.scratch, 'fmt.lst'); open(ff, 'w').write(''.join('|'.join(x) + '\n' for x in rows))
+    paths = ctx.run_driver(b, 'c18_fmt', shards=16, extra=f'file={ff}', timeout=1500)
+    paths += ctx.run_driver(b, 'c18_misc', shards=8, timeout=900)
+    ctx.validate(paths)
+    ctx.notes.append(f'format rows enumerated by TLC and replayed against gmp_snprintf and libc snprintf: {len(rows)}')
+    return ctx.finish('model_checking',
+        rule='R2: PrintfModel = GmpLayout (transcription of doprnt.c flag parsing + doprnti.c) equals CPrintf (C99 7.19.6.1) for every ordered sequence of up to 3 distinct flags and the full '
+             'set x width {none,1,3,8} x precision {none,0,1,5} x {d,i,o,x,X} x 9 values, except the documented deviation. R3/R1: every row is printed by gmp_snprintf and by the C library '
+             'on the equal long; TLC requires gmp = specification, libc = specification (so the reading of the standard is itself validated) and gmp = libc where C gives the combination a '
+             'meaning; every 4th row also on a value beyond all C types. snprintf for every buffer size 0..len+1 with canaries, asprintf block size, %Q %N %M, %F on exact decimals vs libc, '
+             'mixed standard conversions, gmp_sscanf of everything printed. distinct = distinct rows; non-trivial = a row with at least one flag, width or precision',
+        explanation='layout model checked against the C standard and replayed on gmp and libc')
+
+
+# ------------------------------------------------------------------------------------------------ C19
+def check_C19(ctx):
+    q = ctx.tier == 'quick'
+    r = assume_model(ctx, 'RandModels', {'W': 3, 'NMAX': 600 if q else 4000, 'MMAX': 12 if q else 18, 'Variant': '"ok"'}, timeout=3000)
+    ctx.model_must_hold(r, what='(urandomm bit count / rejection; LC chunk assembly stays below 2^nbits)')
+    trace_drivers(ctx, [('c19_hist', 16, 1500), ('c19_stats', 8, 1500)], pure_drivers=['c19_hist'])
+    return ctx.finish('model_checking',
+        rule='R2: RandModels = for every n<=NMAX the bit count of mpz_urandomm makes every value of [0,n-1] reachable by exactly one trial value and accepts at least half of the trials; '
+             'the chunk assembly of randget_lc with ARBITRARY chunk contents stays below 2^nbits for every modulus exponent and request length. R3/R1: twin generator states of every kind '
+             '(MT, lc_2exp_size for table sizes incl. >128, lc_2exp with odd and even m2exp) seeded with 0, 1, 2^64-1 and multi-limb seeds are driven with the same random history of '
+             'urandomb_ui/urandomm_ui/mpz_urandomb/rrandomb/urandomm/mpf_urandomb calls, copies are taken mid-history; MPIR.tla checks every range and, with the history key of each state '
+             'as a ghost, that equal (algorithm, parameters, seed, call history) implies equal outputs; samples of 8192 draws must have every bit frequency and every lag-2^k agreement in '
+             '[1/4,3/4] and a 16-bucket histogram within a factor 2. distinct = distinct calls; non-trivial = a draw of at least two limbs or a statistics sample',
+        explanation='range/termination models + trace validation with a reproducibility ghost and whole-sample statistics')
